@@ -39,6 +39,10 @@ def make_scripted():
             self.i += 1
             if i < len(self.script):
                 return self.script[i]
+            if i > len(self.script) + 2000000:
+                # a sampler that never returns must not hang the check
+                raise RuntimeError("more than 2000000 stream numbers consumed"
+                                   ": the draw does not return")
             return self.tail[(i - len(self.script)) % len(self.tail)]
 
         def next_bool(self):
